@@ -211,6 +211,10 @@ def _exc_class(e):
     return n
 
 
+def inspect_def(defn, lang):
+    return native_specs.WorkflowSpec(render.to_spec(defn, lang)).inspect()
+
+
 def run_model(lines):
     """feed op lines (list of dicts) to the model driver; returns list of reply dicts"""
     if not os.path.exists(DRIVER):
